@@ -712,6 +712,34 @@ func exec(op string) vlib.Res {
 		// over recovery → accesslist → edns → stub. hdr: - | xff | xri | fwd — a
 		// forwarding header naming an ALLOWED address, which must not matter.
 		return liveRun(f[2], strings.Split(f[3], ","), f[4])
+	case "live tls":
+		// live tls <ents>: the REAL server with its DoT, DoH (TLS socket) and DoQ
+		// listeners, each asked from 127.0.0.1
+		return liveTLS(f[2])
+	case "dchain subq":
+		// dchain subq <n>: n resolver-internal sub-queries (ordinary and prefetch
+		// queryer) through the default chain built by "dchain new". They are never
+		// subject to the access list — and the chains they borrow go back to a pool
+		// the next client query draws from, which must not inherit their exemption.
+		n := vlib.Atoi(f[2])
+		answered, panswered := 0, 0
+		for i := 0; i < n; i++ {
+			if dStub.q != nil {
+				if resp, err := dStub.q.Query(context.Background(), query()); err == nil && resp != nil {
+					answered++
+				}
+			}
+			if dStub.pq != nil {
+				if resp, err := dStub.pq.Query(context.Background(), query()); err == nil && resp != nil {
+					panswered++
+				}
+			}
+		}
+		or := "ok"
+		if answered != n || panswered != n {
+			or = fmt.Sprintf("FAIL sig=dchain/subq/internal-query-hit-client-policy answered=%d prefetch-answered=%d of %d", answered, panswered, n)
+		}
+		return vlib.Res{Impl: fmt.Sprintf("answered=%d prefetch=%d", answered, panswered), Oracle: or, Tags: "subq"}
 	case "ident raw":
 		// ident raw <6:hex32|4:hex8> <port>: the Linux batched reader's sockaddr
 		// decoder, then the current access list: the decision must be taken on the
@@ -1047,6 +1075,20 @@ func gen(r *vlib.R, n int, tier string, emit func(string)) {
 		}
 		emit(fmt.Sprintf("live run %s %s %s", l, strings.Join(peers, ","), vlib.Pick(r, []string{"-", "xff", "xri", "fwd"})))
 	}
+	// every encrypted listener of the real server, once with and once without the
+	// loopback source in the list
+	tlss := 1
+	if tier == "thorough" {
+		tlss = 4
+	}
+	for i := 0; i < tlss; i++ {
+		l, _ := genList(r, 3)
+		if l == "-" {
+			l = "4:0a000000/8"
+		}
+		emit("live tls " + l)
+		emit("live tls " + l + ",4:7f000000/8")
+	}
 	for n > 0 {
 		switch k := r.Intn(10); {
 		case k < 6:
@@ -1144,6 +1186,12 @@ func gen(r *vlib.R, n int, tier string, emit func(string)) {
 						ck = vlib.Hex(r.Bytes(8))
 					}
 					prevCookie = ck
+				}
+				if r.Chance(1, 3) {
+					// resolver-internal sub-queries in between: their pooled
+					// chains must not hand their exemption to the next client
+					emit(fmt.Sprintf("dchain subq %d", 1+r.Intn(3)))
+					n--
 				}
 				emit(fmt.Sprintf("dchain %s %s %s %s %s %s", verb, genAddr(r, pool), vlib.Pick(r, []string{"udp", "tcp", "doh"}), ver, opc, ck))
 			}
